@@ -34,13 +34,16 @@ RULE += (
     ' are parsed as short messages; MSM decodes are repeated under label options 2 and 0; code-bias /'
     ' phase-bias nesting relations, MSM level relations and prefix relations between message families.'
 )
+RULE += (
+    " Also: 4076_201 with consecutive layers of another (degree, order) but the same number of cosine coefficients."
+)
 ASSUMPTIONS = [
     "vf.stdgeom pins RTCM 10403.3 (2016) and IGS SSR v1.00 bit geometry from memory of the standards; entries with "
     "provenance T (1300-1305, NavIC MSM) follow later amendments",
     "sibling values are compared by position within an item, so field naming differences between constellations "
     "do not matter",
 ]
-GATES = ["length_checked", "integrity_checked", "sibling_checked", "family:ssr-igs", "family:gps-rtk",
+GATES = ["harmonic_layers_with_equal_cosine_counts", "length_checked", "integrity_checked", "sibling_checked", "family:ssr-igs", "family:gps-rtk",
          "family:msm-level", "last_bit_significant", "pad_bits_insignificant", "pinned_checked"]
 
 _IDX = re.compile(r"^(.*?)((?:_\d{2,3})+)$")
@@ -642,9 +645,11 @@ def run(ctx):
     for k, identity in enumerate(pinned):
         if not ctx.mine(k):
             continue
-        for cs in ("zero", "one", "max", "small", "random"):
-            for _ in range(reps if cs in ("small", "random") else max(1, reps // 4)):
+        for cs in ("zero", "one", "max", "small", "random") + (("related",) if identity == "4076_201" else ()):
+            for _ in range(reps * 6 if cs == "related" else reps if cs in ("small", "random") else max(1, reps // 4)):
                 length_case(ctx, identity, cs, T())
+                if cs == "related":
+                    ctx.hit("harmonic_layers_with_equal_cosine_counts")
     for k, identity in enumerate(ids):
         if ctx.mine(k + 5):
             integrity_case(ctx, identity, T())
